@@ -3,4 +3,4 @@ From C02 Require Import Model Sched.
 From C02.gen Require Import Facts.
 Extraction "Model.ml" slot_run slot_reads slot0 check count find_bad safe_all all_cfgs facts_src facts_fixed facts_old
   succs_ev init async_ok async_pre_src async_post_src async_body_src
-  thread_events no_uaf submit_events exec_range_src tryrun_dec_after_exec_src.
+  thread_events no_uaf submit_events exec_range_src tryrun_dec_after_exec_src nested_ok.
